@@ -18,6 +18,7 @@ Streams (every case is reproducible from VERIF_SEED and is JSON in the replay fi
   float  float-valued day/hour/... fields and normalized(): implementation against an exact
          rational reference and the laws only (NOT modelled in Coq: partial)
   diff   relativedelta(dt1, dt2), the other constructor form: normalised + every unary law
+  foreign  == / - / * / / against operands that are not relativedeltas or numbers (laws only)
 A failing case is shrunk (keys dropped, integers moved toward 0, program steps dropped) while it
 still violates the same law before it is written as the replay.
 """
@@ -39,9 +40,11 @@ import rd_common as R
 CID = "C16"
 AREA = "rdalg"
 VO = ["props/C16.vo", "gen/RdTables.vo", "rd/RdBase.vo", "rd/RdModel.vo", "rd/RdAlgModel.vo",
-      "rd/RdAlgSpec.vo"]
-E_MKFRAC, E_ROUNDTRIP, E_ADDTD = 30, 31, 32
+      "rd/RdAlgSpec.vo", "rd/RdAlgQModel.vo"]
+E_MKFRAC, E_ROUNDTRIP, E_ADDTD, E_MULQ = 30, 31, 32, 33
 S_FIX, S_EQB, S_PRED, S_CANON = 40, 41, 42, 43
+E_CTORQ, E_NORMQ, E_NEGQ, E_ABSQ, E_ADDQ, E_SUBQ = 50, 51, 52, 53, 54, 55
+EXACT_DENS = (1, 2, 4, 8, 16, 64, 256)   # float arithmetic of _fix / normalized() is exact on k/den
 BASES = {"months": 12, "hours": 24, "minutes": 60, "seconds": 60, "microseconds": 10 ** 6}
 EXACT = 1 << 52          # |x| below this: float products of integers are exact
 
@@ -318,6 +321,7 @@ def unary_laws(o, case, d, p):
     empty = bool(s_pred[2])
     case.spec("bool(d) is false exactly when no field is set", bool(d), not empty)
     case.model("bool", [1 if bool(d) else 0], m_bool)
+    case.law("bool(d) is false exactly when d == relativedelta()", bool(d) == (not (d == RD()())))
     # neg
     case.law("-(-d) == d", (nnd[1] == d) and R.rd_proj(nnd[1]) == p, got=pj(R.rd_proj(nnd[1])))
     case.law("-d: totals negated", tot_us(pn[0]) == -tot_us(p[0]) and tot_mo(pn[0]) == -tot_mo(p[0]))
@@ -327,6 +331,8 @@ def unary_laws(o, case, d, p):
     for nm, val, mod in (("d + (-d)", s, m_add), ("(-d) + d", s2, m_add2), ("d - d", z, m_sub)):
         pv = R.rd_proj(val[1])
         case.law(nm + " has no relative part", no_rel(pv[0]), got=list(pv[0]))
+        case.law(nm + " keeps leapdays, the absolute fields and the weekday of d",
+                 (pv[0][7], pv[1], pv[2]) == (p[0][7], p[1], p[2]), got=pj(pv))
         case.model(nm, pv, R.dec_rd(mod))
     # abs
     pa = R.rd_proj(a[1])
@@ -438,6 +444,14 @@ def check_prog(o, prog, case=None):
             # the truncated float products are computed here (floats are not modelled in Coq)
             prods = [int(x * f) for x in mp[0][:7]]
             req = (R.E_MULWITH, em + prods)
+            # exact rational scalar (int, dyadic float, Fraction with a power-of-two denominator; for /
+            # only +-2^j): the model computes the truncated products itself
+            fq = Fraction(f)
+            if (fq.denominator & (fq.denominator - 1)) == 0 and Fraction(k) == (fq if op != "div" else 1 / fq) \
+                    and fq.denominator <= 1 << 20 and all(abs(x * fq.numerator) < EXACT for x in mp[0][:7]):
+                mq = R.dec_rd(o.call(E_MULQ, em + [fq.numerator, fq.denominator]))
+                case.model("%s by the exact scalar %s (mul_q)" % (op, fq), proj_out(res), ("ok", mq))
+                case.tags.append("mul_q-compared")
             kk = None
             if op != "div" and Fraction(k).denominator == 1:
                 kk = int(k)
@@ -498,8 +512,13 @@ def wd_variants(w):
     if w.n in (None, 0, 1):
         out = [weekday(w.weekday, None), weekday(w.weekday, 0), weekday(w.weekday, 1)]
         if 0 <= w.weekday <= 6:
-            out.append(w.weekday)
+            from dateutil.relativedelta import weekdays
+            base = weekdays[w.weekday]                    # MO .. SU and the call form MO(n)
+            out += [w.weekday, base, base(None), base(0), base(1), base(+1)(None)]
         return out
+    if 0 <= w.weekday <= 6:
+        from dateutil.relativedelta import weekdays
+        return [w, weekday(w.weekday, w.n), weekdays[w.weekday](w.n)]
     return [w, weekday(w.weekday, w.n)]
 
 
@@ -582,6 +601,15 @@ def gen_pair(r):
     return "independent", kw, kw2, kw3
 
 
+def key_tuple(h):
+    """the tuple the model says is handed to hash(): decoded from oracle entry E_HASH"""
+    wdk = (h[1], h[2]) if h[0] else None
+    rel = h[3:10]
+    lp = h[10]
+    ab = [h[12 + 2 * i] if h[11 + 2 * i] else None for i in range(7)]
+    return (wdk,) + tuple(rel) + (lp,) + tuple(ab)
+
+
 def py_eq(a, b):
     return outcome(lambda: (a == b, a != b))
 
@@ -613,6 +641,13 @@ def check_pair(o, inp, case=None):
     case.notes.update({"a": pj(ps[0]), "b": pj(ps[1]), "c": pj(ps[2]), "impl a==b": eq_ab, "model eqb": m_ab,
                        "spec_eqb": s_ab, "hash(a)==hash(b)": hash(A) == hash(B),
                        "model hash_key a": h_a, "model hash_key b": h_b})
+    wa, wb = A.weekday, B.weekday
+    if wa is not None and wb is not None:
+        same = (wa.weekday, wa.n) == (wb.weekday, wb.n)
+        case.law("weekday objects: == iff same (weekday, n), != its negation, equal => equal hash",
+                 (wa == wb) == same and (wa != wb) == (not same) and (not same or hash(wa) == hash(wb))
+                 and wa(wa.n) is wa and (wa == 5) is False,
+                 wa=[wa.weekday, wa.n], wb=[wb.weekday, wb.n])
     case.law("== returns a bool and != is its negation",
              all(isinstance(x[1][0], bool) and x[1][1] == (not x[1][0]) for x in (ab, ba, bc, ac)))
     case.law("== is symmetric", eq_ab == eq_ba, ab=eq_ab, ba=eq_ba)
@@ -622,6 +657,9 @@ def check_pair(o, inp, case=None):
         case.law("equal deltas hash equal", hash(A) == hash(B), hash_a=hash(A), hash_b=hash(B))
     if eq_bc:
         case.law("equal deltas hash equal", hash(B) == hash(Cc))
+    # the implementation's hash is the hash of exactly the model's key tuple
+    case.model("hash(a) == hash(model hash_key a)", hash(A), hash(key_tuple(h_a)))
+    case.model("hash(b) == hash(model hash_key b)", hash(B), hash(key_tuple(h_b)))
     case.spec("a == b iff same canonical form", [int(eq_ab)], s_ab)
     case.spec("b == c iff same canonical form", [int(eq_bc)], s_bc)
     case.spec("a == c iff same canonical form", [int(eq_ac)], s_ac)
@@ -731,12 +769,14 @@ def check_frac(o, inp, case=None):
 # ------------------------------------------------------------------ stream: float (not modelled)
 
 def gen_float(r):
-    den = r.choice([1, 2, 4, 8, 8, 8, 1024]) if r.random() < 0.8 else 0
+    den = r.choice([1, 2, 4, 8, 8, 16, 64, 256, 1024]) if r.random() < 0.85 else 0
     kw = {}
     for nm in ("days", "hours", "minutes", "seconds", "microseconds"):
         if r.random() < 0.6:
             mag = {"days": 50, "hours": 100, "minutes": 200, "seconds": 200, "microseconds": 10 ** 6}[nm]
-            if den and nm != "microseconds":
+            if r.random() < 0.15:
+                mag = {"days": 3, "hours": 24, "minutes": 60, "seconds": 60, "microseconds": 2 * 10 ** 6}[nm]
+            if den and (nm != "microseconds" or r.random() < 0.4):
                 kw[nm] = float(r.randint(-mag * den, mag * den)) / den
             elif den:
                 kw[nm] = r.randint(-mag, mag)
@@ -747,7 +787,22 @@ def gen_float(r):
         kw["months"] = r.randint(-14, 14)
     if r.random() < 0.2:
         kw["weekday"] = R.gen_weekday(r)
-    return {"den": den, "kw": {k: (v.hex() if isinstance(v, float) else v) for k, v in R.kw_json(kw).items()}}
+    if r.random() < 0.1:
+        kw["leapdays"] = r.choice([-1, 1])
+    if r.random() < 0.03:
+        kw[r.choice(["hour", "second", "day"])] = r.choice([1.5, 2.0, 0.25])   # deprecated, warns; passed through
+    out = {"den": den, "kw": {k: (v.hex() if isinstance(v, float) else v) for k, v in R.kw_json(kw).items()}}
+    if den and "kw2" not in out and r.random() < 0.6:
+        kw2 = {}
+        for nm in ("days", "hours", "minutes", "seconds"):
+            if r.random() < 0.5:
+                kw2[nm] = float(r.randint(-60 * den, 60 * den)) / den
+        if r.random() < 0.3:
+            kw2["microseconds"] = r.randint(-10 ** 6, 10 ** 6)
+        if r.random() < 0.2:
+            kw2["months"] = r.randint(-14, 14)
+        out["kw2"] = {k: (v.hex() if isinstance(v, float) else v) for k, v in kw2.items()}
+    return out
 
 
 def _unhex(j):
@@ -781,10 +836,51 @@ def check_float(o, inp, case=None):
         return case
     case.law("normalized() result is normalised", is_normal(p[0]), got=list(p[0]))
     den = inp["den"]
-    exact = den in (1, 2, 4, 8)
+    exact = den in EXACT_DENS
+    abs_int = all(v is None or R.is_int(v) for v in R.rd_proj(d)[1])
+    if exact and abs_int and not R.is_int(kw.get("weekday")):
+        # rational idealisation (coq/rd/RdAlgQModel.v): numerators over den
+        def num(v):
+            f = Fraction(v) * den
+            return int(f) if f.denominator == 1 else None
+        nin = [kw.get("years", 0), kw.get("months", 0)] + [num(kw.get(nm, 0)) for nm in R.REL[2:]]
+        pd = R.rd_proj(d)
+        nimpl = [pd[0][0], pd[0][1]] + [num(v) for v in pd[0][2:7]]
+        if None not in nin and None not in nimpl and R.is_int(pd[0][7]):
+            e_in = R.enc_proj((tuple(nin) + (pd[0][7],), pd[1], pd[2]))
+            if R.fits(e_in):
+                mq = R.dec_rd(o.call(E_CTORQ, [den] + e_in))
+                case.model("float-valued constructor (rational model, denominator %d)" % den,
+                           (tuple(nimpl) + (pd[0][7],), pd[1], pd[2]), mq)
+                mn = R.dec_rd(o.call(E_NORMQ, [den] + R.enc_proj(mq)))
+                case.model("normalized() (rational model, denominator %d)" % den, p, mn)
+                case.tags.append("rational-model-compared")
+
+                def nproj(x):
+                    px = R.rd_proj(x)
+                    nums = [num(v) for v in px[0][2:7]]
+                    if None in nums:
+                        return None
+                    return ((px[0][0], px[0][1]) + tuple(nums) + (px[0][7],), px[1], px[2])
+                emq = R.enc_proj(mq)
+                case.model("-d (rational model)", nproj(-d), R.dec_rd(o.call(E_NEGQ, [den] + emq)))
+                case.model("abs(d) (rational model)", nproj(abs(d)), R.dec_rd(o.call(E_ABSQ, [den] + emq)))
+                if "kw2" in inp:
+                    d2 = build(_unhex(inp["kw2"]))
+                    if d2[0] == "ok" and nproj(d2[1]) is not None:
+                        e2 = R.enc_proj(nproj(d2[1]))
+                        case.model("d + d2 (rational model)", nproj(d + d2[1]),
+                                   R.dec_rd(o.call(E_ADDQ, [den] + emq + e2)))
+                        case.model("d - d2 (rational model)", nproj(d - d2[1]),
+                                   R.dec_rd(o.call(E_SUBQ, [den] + emq + e2)))
+                        case.law("d + d2 normalised (float-valued)", all(
+                            abs(v) < b for v, b in zip(R.rd_proj(d + d2[1])[0][1:7], (12, 10 ** 30, 24, 60, 60, 10 ** 6))))
+                        case.tags.append("rational-binary-ops-compared")
+        else:
+            case.law("dyadic float fields stay dyadic with the same denominator", False, got=pj(pd))
     diff = abs(Fraction(tot_us(p[0])) - exact_in)
-    case.law("normalized() preserves the total (to the microsecond%s)" % (", exactly" if exact else ""),
-             diff <= (0 if exact else 1), total_after=tot_us(p[0]), exact_before=str(exact_in))
+    case.law("normalized() preserves the total (%s)" % ("to half a microsecond" if exact else "to the microsecond"),
+             diff <= (Fraction(1, 2) if exact else 1), total_after=tot_us(p[0]), exact_before=str(exact_in))
     case.law("normalized() keeps years/months/leapdays/absolute/weekday",
              (n.years, n.months, n.leapdays, n.weekday, n.year, n.day) == (d.years, d.months, d.leapdays, d.weekday, d.year, d.day))
     nn = outcome(lambda: n.normalized())
@@ -794,7 +890,7 @@ def check_float(o, inp, case=None):
     case.law("d + (-d) has no relative part (float-valued fields)", no_rel(R.rd_proj(d + (-d))[0]),
              got=pj(R.rd_proj(d + (-d))))
     # integral floats are the same value as the integers
-    if den == 1:
+    if den == 1 and abs_int:
         ikw = {k: (int(v) if isinstance(v, float) else v) for k, v in kw.items()}
         di = build(ikw)[1]
         case.law("integral float fields: equal to and hashing like the integer-valued delta",
@@ -844,11 +940,48 @@ def check_diff(o, inp, case=None):
     return case
 
 
+
+# ------------------------------------------------------------------ stream: foreign operands (laws only)
+
+FOREIGN = [5, 0, 1.5, "x", None, (1, 2), _dt.date(2000, 1, 1), object]
+
+
+def gen_foreign(r):
+    kw, _ = gen_kw16(r)
+    kw.pop("yearday", None)
+    kw.pop("nlyearday", None)
+    return {"kw": R.kw_json(kw), "other": r.randrange(len(FOREIGN))}
+
+
+def check_foreign(o, inp, case=None):
+    """a relativedelta against something that is not a relativedelta / number: == is False (no
+    exception), - and * / by a non-number raise TypeError.  Not part of the Coq model."""
+    case = case or Case("foreign", inp)
+    res = build(R.kw_from_json(inp["kw"]))
+    if res[0] != "ok":
+        return case
+    d, x = res[1], FOREIGN[inp["other"]]
+    eq = outcome(lambda: (d == x, x == d))
+    if isinstance(x, _dt.date):
+        return case
+    case.law("d == <not a relativedelta> is False, without raising", eq == ("ok", (False, False)), got=repr(eq))
+    sub = outcome(lambda: d - x)
+    case.law("d - <not a relativedelta> raises TypeError", sub == ("err", "EXC:TypeError"), got=repr(sub))
+    if x is None or isinstance(x, tuple) or x is object:
+        mul = outcome(lambda: d * x)
+        div = outcome(lambda: d / x)
+        case.law("d * <not a number> and d / <not a number> raise TypeError",
+                 mul == ("err", "EXC:TypeError") and div == ("err", "EXC:TypeError"), got=repr((mul, div)))
+    case.law("hash(d) is an int and stable", isinstance(hash(d), int) and hash(d) == hash(d))
+    case.nontrivial = True
+    return case
+
+
 # ------------------------------------------------------------------ driver
 
 CHECKS = {"ctor": lambda o, inp: check_ctor(o, R.kw_from_json(inp["kw"])),
           "prog": check_prog, "pair": check_pair, "frac": check_frac, "float": check_float,
-          "diff": check_diff}
+          "diff": check_diff, "foreign": check_foreign}
 
 
 def gen_case(stream, r):
@@ -865,7 +998,62 @@ def gen_case(stream, r):
         return gen_frac(r), None
     if stream == "diff":
         return gen_diff(r), None
+    if stream == "foreign":
+        return gen_foreign(r), None
     return gen_float(r), None
+
+
+
+# ------------------------------------------------------------------ coverage of the anchored code
+
+ANCHOR_RANGES = {"relativedelta.py": [(171, 262), (282, 361), (410, 582), (600, 601)],
+                 "_common.py": [(6, 31)]}
+
+
+def measure_anchor_coverage(n_per_stream=250):
+    """line/branch coverage (coverage.py API) of the anchored source ranges while a sample of every
+    stream runs in this process; shows in the evidence when a generator stops exercising a branch"""
+    try:
+        import coverage
+    except ImportError:
+        return {"error": "coverage module not available"}
+    files = {k: os.path.join(C.SRC, "dateutil", k) for k in ANCHOR_RANGES}
+    cov = coverage.Coverage(branch=True, include=list(files.values()), data_file=None)
+    o = C.Oracle(AREA)
+    cov.start()
+    try:
+        for stream in CHECKS:
+            r = C.rng("C16/coverage/" + stream)
+            for _ in range(n_per_stream):
+                inp, _m = gen_case(stream, r)
+                try:
+                    CHECKS[stream](o, inp)
+                except Exception:
+                    pass
+        for inp in small_scope_pairs()[:60]:
+            check_pair(o, inp)
+        for inp in small_scope_ctor()[-20:]:
+            CHECKS["ctor"](o, inp)
+    finally:
+        cov.stop()
+        o.close()
+    out = {}
+    for name, path in files.items():
+        try:
+            an = cov._analyze(path)
+            stm, missing = set(an.statements), set(an.missing)
+            arcs_missing = an.missing_branch_arcs()
+        except Exception as ex:
+            out[name] = {"error": repr(ex)}
+            continue
+        inr = lambda ln: any(a <= ln <= b for a, b in ANCHOR_RANGES[name])
+        st_in = sorted(x for x in stm if inr(x))
+        miss_in = sorted(x for x in missing if inr(x))
+        br_missing = sorted((src, dst) for src, dsts in arcs_missing.items() if inr(src) for dst in dsts)
+        out[name] = {"anchored_ranges": ANCHOR_RANGES[name], "statements": len(st_in),
+                     "statements_executed": len(st_in) - len(miss_in), "missing_lines": miss_in,
+                     "missing_branch_arcs": [list(x) for x in br_missing]}
+    return out
 
 
 # ------------------------------------------------------------------ shrinking
@@ -970,6 +1158,9 @@ def small_scope_ctor():
         for v in vals:
             for u in (-1, 0, 1):
                 out.append({"kw": {nm: v, up: u}})
+    for yd in (1, 31, 32, 59, 60, 61, 365, 366, 367, -1):
+        out.append({"kw": {"yearday": yd}})
+        out.append({"kw": {"nlyearday": yd}})
     return out
 
 
@@ -1035,8 +1226,8 @@ def run_job(job):
 
 
 BUDGET = {   # cases per stream
-    "quick": {"ctor": 20000, "prog": 18000, "pair": 18000, "frac": 4000, "float": 5000, "diff": 4000},
-    "thorough": {"ctor": 900000, "prog": 800000, "pair": 900000, "frac": 150000, "float": 250000, "diff": 150000},
+    "quick": {"ctor": 20000, "prog": 18000, "pair": 18000, "frac": 4000, "float": 5000, "diff": 4000, "foreign": 600},
+    "thorough": {"ctor": 900000, "prog": 800000, "pair": 900000, "frac": 150000, "float": 250000, "diff": 150000, "foreign": 5000},
 }
 
 
@@ -1162,6 +1353,7 @@ def main():
     if not have_oracle and not verdict.violations:
         verdict.violation({"kind": "oracle_rdalg missing (build failed)", "input": None}, concrete=False)
     rc = verdict.finish()
+    anchor_cov = measure_anchor_coverage() if have_oracle else {}
     evals = sum(t["evaluations"] for t in totals.values())
     partial = [n for n in props["theorems"] if n.endswith("_partial")]
     cov = {
@@ -1178,11 +1370,14 @@ def main():
                                for s, t in totals.items()},
         "exhaustive": False,
         "small_scope_exhaustive": exhaustive_counts,
+        "anchored_code_coverage_of_a_sample": anchor_cov,
         "model_vs_impl_disagreements": n_model,
         "law_or_spec_violations_on_impl": n_conc,
         "partial_theorems": partial,
         "differential_only": ["float-valued relative fields (days=1.5 ...) and normalized()'s rounding cascade: "
-                              "implementation compared with an exact rational total and the laws, not modelled in Coq",
+                              "modelled only as exact rationals (coq/rd/RdAlgQModel.v, compared for dyadic values with "
+                              "denominator <= 256); float rounding beyond that is compared with an exact rational "
+                              "total and the laws only",
                               "float products int(field * float(k)) of * and /: computed by the harness, the model "
                               "only builds the result from them (exact integer scalars are modelled: mul_int)"],
         "known_findings_hit": verdict.known_hits,
